@@ -264,6 +264,28 @@ contains
   end subroutine use_c2
 end module kb_c2
 """,
+    "cm_types.f90": """module cm_types
+  implicit none
+  type :: mesh
+    real :: spacing
+    integer :: ncell
+  end type mesh
+  type :: solver
+    type(mesh) :: mesh
+    integer :: iters
+  end type solver
+  type, extends(solver) :: multigrid
+    type(mesh) :: coarse
+  end type multigrid
+contains
+  subroutine cm_use()
+    type(multigrid) :: mg
+    mg%mesh%
+    mg%coarse%sp
+    mg%
+  end subroutine cm_use
+end module cm_types
+""",
     "geo_main.f90": """program geo_main
   use geo_poly, only: poly_t, poly_reset
   use geo_base, only: s
@@ -300,6 +322,9 @@ CATALOGUE_CASES = [
     ("PUBLIC list written in another case", "geo_alias2.f90", 5, 9, None, {"mixed_name"}, set()),
     ("derived type in an executable statement", "geo_alias.f90", 7, 9, None, {"shape_t"}, set()),
     ("CALL on an object: bound procedures", "geo_main.f90", 11, 10, None, {"describe", "perimeter"}, {"plain_var", "poly_reset"}),
+    ("components of a component that is named like its type", "cm_types.f90", 16, 12, None, {"spacing", "ncell"}, {"iters", "mesh", "coarse"}),
+    ("components of an inherited-type's sibling component of the same type", "cm_types.f90", 17, 16, None, {"spacing"}, {"ncell", "iters"}),
+    ("members of the extended type", "cm_types.f90", 18, 7, None, {"mesh", "iters", "coarse"}, {"spacing"}),
     ("ONLY lists on two USE levels with nothing in common", "kn_main.f90", 4, 8, None, set(), {"k_dp", "k_sp", "k_long"}),
     ("ONLY list names the used module's own procedure", "kn_main.f90", 5, 9, None, {"u_help"}, set()),
     ("disjoint ONLY lists plus a direct USE ONLY of the inner module", "kn_main2.f90", 5, 8, None, {"k_sp"}, {"k_dp", "k_long"}),
